@@ -1529,4 +1529,138 @@ Proof.
   rewrite injectable_attr_by_name; rewrite ?EN; auto.
 Qed.
 
+(* ====================================================================== *)
+(* The driver station (FMS attached or not, enabled or not) while the robot  *)
+(* program starts decides nothing: components and autonomous modes alike.    *)
+(* ====================================================================== *)
+
+(* which error, or which components / constructor kwargs / __dict__ updates:
+   the same in every environment *)
+Theorem startup_env_irrelevant e e' r : startup_in subclass e r = startup_in subclass e' r.
+Proof. reflexivity. Qed.
+
+(* hence everything the harness observes of a successful start-up *)
+Theorem observe_env_irrelevant e e' r s s' :
+  startup_in subclass e r = Ok s -> startup_in subclass e' r = Ok s' ->
+  s = s' /\ trace_of r s = trace_of r s' /\ observe r s = observe r s'.
+Proof.
+  intros H H'. rewrite (startup_env_irrelevant e e') in H. rewrite H in H'.
+  inversion H'; subst. repeat split.
+Qed.
+
+(* C08_fail_iff in every environment *)
+Theorem startup_in_fail_iff e r :
+  (exists err, startup_in subclass e r = Err err) <-> robot_fault r \/ ctor_fault r \/ attr_fault r.
+Proof. exact (fail_iff r). Qed.
+
+(* A request of an attribute-injection target (component or autonomous mode,
+   [targets r]) that cannot be served makes start-up fail, in every environment;
+   with class annotations only, with the injection error. *)
+Theorem target_fault_fails_in e r tg n h :
+  In tg (targets r) -> In (n, h) (t_hints tg) -> is_private n = false -> t_has tg n = false ->
+  request_fails (all_injectables r) (tname (t_ref tg)) n h ->
+  exists err, startup_in subclass e r = Err err /\ (all_types r -> err = EInject).
+Proof.
+  intros Htg Hh HP HH HF.
+  destruct (proj2 (fail_iff r)) as [err He].
+  { right. right. exists tg, n, h. now repeat split. }
+  exists err. split; [exact He|]. intros HT. now apply error_class with (r := r).
+Qed.
+
+Theorem mode_fault_fails_in e r md n h :
+  In md (r_modes r) -> In (n, h) (m_hints md) -> is_private n = false -> mode_has md n = false ->
+  request_fails (all_injectables r) (m_name md) n h ->
+  exists err, startup_in subclass e r = Err err /\ (all_types r -> err = EInject).
+Proof.
+  intros HI. exact (target_fault_fails_in e r (mode_target md) n h (mode_in_targets r md HI)).
+Qed.
+
+Theorem comp_fault_fails_in e r c d n h :
+  In (c, d) (components r) -> In (n, h) (k_hints (c_class d)) -> is_private n = false ->
+  comp_has d n = false -> request_fails (all_injectables r) c n h ->
+  exists err, startup_in subclass e r = Err err /\ (all_types r -> err = EInject).
+Proof.
+  intros HI. exact (target_fault_fails_in e r (comp_target c d) n h (comp_in_targets r c d HI)).
+Qed.
+
+Theorem ctor_fault_fails_in e r :
+  ctor_fault r -> exists err, startup_in subclass e r = Err err /\ (all_types r -> err = EInject).
+Proof.
+  intros HF. destruct (proj2 (fail_iff r)) as [err He]; [right; now left|].
+  exists err. split; [exact He|]. intros HT. now apply error_class with (r := r).
+Qed.
+
+(* and a start-up that succeeded, in whatever environment, left no target with
+   a missing or mistyped dependency: C08_attr_exact for components and modes *)
+Theorem attr_exact_in e r s :
+  startup_in subclass e r = Ok s ->
+  forall tg n h, In tg (targets r) -> In (n, h) (t_hints tg) ->
+    is_private n = false -> t_has tg n = false ->
+    exists T o, hint_type h = Some T /\
+      pick (all_injectables r) (tname (t_ref tg)) n = Some o /\
+      subclass (ocls o) T = true /\
+      attr_at r (before_first_setup (trace_of r s)) (t_ref tg) n = Is (Some o) /\
+      attr_at r (trace_of r s) (t_ref tg) n = Is (Some o).
+Proof. exact (attr_exact r s). Qed.
+
+Theorem attr_exact_mode_in e r s :
+  startup_in subclass e r = Ok s ->
+  forall md n h, In md (r_modes r) -> In (n, h) (m_hints md) ->
+    is_private n = false -> mode_has md n = false ->
+    exists T o, hint_type h = Some T /\
+      pick (all_injectables r) (m_name md) n = Some o /\
+      subclass (ocls o) T = true /\
+      attr_at r (before_first_setup (trace_of r s)) (TMode (m_name md)) n = Is (Some o) /\
+      attr_at r (trace_of r s) (TMode (m_name md)) n = Is (Some o).
+Proof. exact (attr_exact_mode r s). Qed.
+
+(* ---- NOT the code: the start-up that WOULD consult the driver station ---- *)
+(* _setup_vars of every target inside "try: ... except: self.onException()"
+   (the policy of the autonomous-mode loader: crash on the bench, keep going on
+   the field): with the FMS attached a target whose request cannot be served is
+   reported and left un-injected.  Only here to show that the statements above
+   exclude something (the C08_nv_env examples). *)
+Fixpoint inject_all_tolerant (e : env) (tgs : list target) (inj : imap)
+  : res (list (tref * list (name * obj))) :=
+  match tgs with
+  | [] => Ok []
+  | tg :: rest =>
+    match on_exception e (setup_vars subclass tg inj) [] with
+    | Err err => Err err
+    | Ok upd =>
+      match inject_all_tolerant e rest inj with
+      | Err err => Err err
+      | Ok ups => Ok ((t_ref tg, upd) :: ups)
+      end
+    end
+  end.
+
+Definition startup_tolerant (e : env) (r : robot) : res started :=
+  match construct subclass r (r_hints r) (collect_injectables (r_dir r)) with
+  | Err err => Err err
+  | Ok (cs, inj) =>
+    match inject_all_tolerant e (map (fun c => comp_target (cr_name c) (cr_def c)) cs
+                                 ++ map mode_target (r_modes r)) inj with
+    | Err err => Err err
+    | Ok ups => Ok {| st_comps := cs; st_updates := ups |}
+    end
+  end.
+
+Lemma inject_all_tolerant_no_fms e tgs inj :
+  fms_attached e = false -> inject_all_tolerant e tgs inj = inject_all subclass tgs inj.
+Proof.
+  intros HE. induction tgs as [|tg rest IH]; simpl; [reflexivity|].
+  unfold on_exception. rewrite HE, IH. destruct (setup_vars subclass tg inj); reflexivity.
+Qed.
+
+(* the FMS flag is exactly what separates the two *)
+Theorem tolerant_without_fms e r :
+  fms_attached e = false -> startup_tolerant e r = startup_in subclass e r.
+Proof.
+  intros HE. unfold startup_tolerant, startup_in, startup.
+  destruct (construct subclass r (r_hints r) (collect_injectables (r_dir r))) as [[cs inj]|err];
+    [|reflexivity].
+  now rewrite inject_all_tolerant_no_fms.
+Qed.
+
 End WithSubclass.
